@@ -8,6 +8,7 @@ Translated from the CURRENT source text (stdlib `ast` only, nothing of cogent3 i
     nj.PartialTree.asScoreTreeTuple                   -> the vector `lengths` (the zip with the nodes / `convert` stays hand-modelled)
     UPGMA.find_smallest_index, condense_matrix, condense_node_order
     UPGMA.UPGMA_cluster                               -> the body of the `for` loop as a step function on (matrix, node_order, tree)
+    UPGMA.inputs_from_dict_array                      -> (array + eye * BIG_NUM, one PhyloNode per key)
 
 Every numpy / list operation is mapped to ONE primitive of lean/CogentModel/Model/TreeNumpy.lean (2-D arrays are entry
 functions, the side `n` of the square array is an explicit parameter; exact rationals).  Elementwise arithmetic becomes a
@@ -58,6 +59,7 @@ class Fn:
         self.env0 = env
         self.result = result  # ("return", type) | ("ctor", [positions], [types]) | ("var", name, type)
         self.notes = []
+        self.objmap = {}  # (object name, attribute) -> parameter name | "#shape" | "#keys"
 
     # ------------------------------------------------------------ expressions
     def ex(self, n, env):
@@ -86,6 +88,11 @@ class Fn:
                 if n.attr in self.selfmap:
                     return self.ex(ast.Name(id=self.selfmap[n.attr], ctx=ast.Load()), env)
                 raise Unsupported(f"self.{n.attr}")
+            if isinstance(n.value, ast.Name) and (n.value.id, n.attr) in self.objmap:
+                tgt = self.objmap[(n.value.id, n.attr)]
+                if tgt == "#shape":
+                    return ("SHAPE",), None
+                return self.ex(ast.Name(id=tgt, ctx=ast.Load()), env)
             t, s = self.ex(n.value, env)
             if t == "M" and n.attr == "shape":
                 return ("SHAPE",), None
@@ -293,6 +300,22 @@ class Fn:
                     raise Unsupported("LightweightTreeNode argument types")
                 parts += [l, tr]
             return "T", "(T.bin " + " ".join(parts) + ")"
+        if name == "numpy.eye" and len(n.args) == 1:
+            if self.idx(n.args[0], env) != "n":
+                raise Unsupported("numpy.eye of a side other than the array's")
+            return "M", "eye"
+        if isinstance(n.func, ast.Attribute) and isinstance(n.func.value, ast.Name) and self.objmap.get((n.func.value.id, n.func.attr)) == "#keys" and not n.args:
+            return ("KEYS",), None
+        if name == "map" and len(n.args) == 2 and isinstance(n.args[0], ast.Name) and n.args[0].id == "PhyloNode":
+            t, _ = self.ex(n.args[1], env)
+            if t == ("KEYS",):
+                return ("MAPPN",), None
+            raise Unsupported("map(PhyloNode, ...) over something that is not darr.keys()")
+        if name == "list" and len(n.args) == 1:
+            t, _ = self.ex(n.args[0], env)
+            if t == ("MAPPN",):
+                return "OL", "((List.range n).map fun k => some (PN.leaf k))"
+            raise Unsupported("list(...)")
         if name == "PhyloNode" and not n.args:
             return "PN", "PN.new"
         if isinstance(n.func, ast.Attribute) and n.func.attr == "copy" and not n.args:
@@ -367,6 +390,11 @@ class Fn:
             return [f"if {c} then"] + ["  " + x for x in a] + ["else"] + ["  " + x for x in b]
         if isinstance(s, ast.For):
             return self.forloop(s, rest, env, k)
+        if isinstance(s, ast.AugAssign) and isinstance(s.target, ast.Attribute) and isinstance(s.target.value, ast.Name) \
+                and isinstance(self.objmap.get((s.target.value.id, s.target.attr)), str) and not self.objmap[(s.target.value.id, s.target.attr)].startswith("#"):
+            nm = self.objmap[(s.target.value.id, s.target.attr)]
+            val = ast.BinOp(left=ast.Name(id=nm, ctx=ast.Load()), op=s.op, right=s.value)
+            return self.assign(nm, ast.copy_location(val, s), env, go)
         if isinstance(s, ast.Assign) and len(s.targets) == 1:
             tg = s.targets[0]
             if isinstance(tg, ast.Name):
@@ -504,6 +532,16 @@ class Fn:
             if t != self.result[1]:
                 raise Unsupported(f"returns {t}, expected {self.result[1]}")
             return [s]
+        if kind == "tuple":
+            if not (isinstance(v, ast.Tuple) and len(v.elts) == len(self.result[1])):
+                raise Unsupported("return is not the expected tuple")
+            parts = []
+            for e, ty in zip(v.elts, self.result[1]):
+                t, s = self.ex(e, env)
+                if t != ty:
+                    raise Unsupported(f"returned component {t}, expected {ty}")
+                parts.append(s)
+            return ["(" + ", ".join(parts) + ")"]
         if kind == "ctor":
             if not (isinstance(v, ast.Call) and not v.keywords):
                 raise Unsupported("return is not a constructor call")
@@ -678,12 +716,13 @@ def translate(src: Path):
     selfmap = {"d": "d", "nodes": "nodes", "score": "score"}
     known = {}
 
-    def one(table, key, lean_name, env, result, params, rtype, doc, smap=None):
+    def one(table, key, lean_name, env, result, params, rtype, doc, smap=None, objmap=None):
         if key not in table:
             problems.append(f"{key} not found")
             return
         fn = Fn(table[key], smap or {}, env, result)
         fn.known = known
+        fn.objmap = objmap or {}
         try:
             parts.append(fn.translate(lean_name, params, rtype, doc))
             notes.extend(f"{key}: {x}" for x in fn.notes)
@@ -706,6 +745,10 @@ def translate(src: Path):
     one(up, "condense_node_order", "condense_node_order", {"matrix": "M", "smallest_index": "P", "node_order": "OL"}, ("return", "OL"),
         [("matrix", "Arr"), ("smallest_index", "Nat × Nat"), ("node_order", "List (Option PN)")], "List (Option PN)", "`condense_node_order`")
     known["condense_node_order"] = ("condense_node_order", ["M", "P", "OL"], "OL", False)
+    one(up, "inputs_from_dict_array", "inputs_from_dict_array", {"array": "M", "BIG_NUM": "S"}, ("tuple", ["M", "OL"]),
+        [("n", "Nat"), ("array", "Arr"), ("BIG_NUM", "Rat")], "Arr × List (Option PN)",
+        "`inputs_from_dict_array` (darr.array = `array`, darr.shape[0] = n, darr.keys() = 0..n-1; `BIG_NUM` the module constant)",
+        objmap={("darr", "array"): "array", ("darr", "shape"): "#shape", ("darr", "keys"): "#keys"})
     if "UPGMA_cluster" not in up:
         problems.append("UPGMA_cluster not found")
     else:
